@@ -1,2 +1,16 @@
 import Plonk.Props.C11
 #print axioms Plonk.Props.C11.placeholder_bounds
+#print axioms Plonk.Props.C11.componentTruncate_extends
+#print axioms Plonk.Props.C11.componentTruncate_sound
+#print axioms Plonk.Props.C11.componentTruncate_complete
+#print axioms Plonk.Props.C11.truncate_exact
+#print axioms Plonk.Props.C11.truncate_unique
+#print axioms Plonk.Props.C11.bindTruncationSplit_extends
+#print axioms Plonk.Props.C11.bindTruncationSplit_sound
+#print axioms Plonk.Props.C11.bindTruncationSplit_complete
+#print axioms Plonk.Props.C11.componentDecomposition_extends
+#print axioms Plonk.Props.C11.componentDecomposition_sound
+#print axioms Plonk.Props.C11.componentDecomposition_complete
+#print axioms Plonk.Props.C11.decomposition_exact
+#print axioms Plonk.Props.C11.decomposition_unique
+#print axioms Plonk.Props.C11.decomposition_alias_255_256
